@@ -746,7 +746,10 @@ impl Swift {
     }
 
     fn write_comment(&mut self, w: &mut dyn Write, indent: usize, comment: &str) -> io::Result<()> {
-        writeln!(w, "{}/// {}", "\t".repeat(indent), comment.trim_end())?;
+        // A doc string can span several lines (block doc comments): each line needs its own `///`.
+        for line in comment.trim_end().split('\n') {
+            writeln!(w, "{}/// {}", "\t".repeat(indent), line.trim_end())?;
+        }
         Ok(())
     }
 
